@@ -69,10 +69,12 @@ package corerad
 //@   at call ReadFrom() (rm, rcm, rhost, rerr): ghost.lastHop = rcm.HopLimit
 //@   loop 1 invariant I1 [C09,C10]: 0 <= i && i <= 5 && ghost.timeouts == i && ghost.bad >= 0
 //@   loop 1 invariant I2 [C09]: ghost.invalid == old(ghost.invalid) + ghost.bad
+//@   loop 1 invariant I3 [C07,C09,C18]: ghost.reads == old(ghost.reads) + ghost.timeouts + ghost.bad
 //@   at call time.After(w): assert B1 [C10]: w == ms(50) * ghost.timeouts ; ghost.timeouts = ghost.timeouts + 1
-//@   at call MessagesReceivedInvalidTotal(v, labels): ghost.bad = ghost.bad + 1
-//@   ensures E1 [C09]: result2 == nil ==> cm != nil && cm.HopLimit == 255 && result0 == m && result1 == host
-//@   ensures E5 [C09]: result2 == nil ==> ghost.lastHop == 255 && result0 != nil && msgOK(result0)
+//@   at call MessagesReceivedInvalidTotal(v, labels): assert K1 [C07,C09,C18]: ghost.lastHop != 255 ; ghost.bad = ghost.bad + 1
+//@   ensures E1 [C07,C09,C18]: result2 == nil ==> cm != nil && cm.HopLimit == 255 && result0 == m && result1 == host
+//@   ensures E5 [C07,C09,C18]: result2 == nil ==> ghost.lastHop == 255 && result0 != nil && msgOK(result0)
+//@   ensures E6 [C07,C09,C18]: result2 == nil ==> ghost.reads == old(ghost.reads) + ghost.timeouts + ghost.bad + 1
 //@   ensures E2 [C09,C10]: result2 == errRetriesExhausted ==> ghost.timeouts == 5
 //@   ensures E3 [C09]: ghost.invalid == old(ghost.invalid) + ghost.bad
 //@   ensures E4 [C10]: result2 != nil ==> result0 == nil
